@@ -127,6 +127,13 @@ func C04(run *hx.Run) {
 			cols := t.ColNames()
 			tab, terr := low.Table(t.Name)
 			present, absent := 0, 0
+			// results kept WITHOUT copying across later lookups: a row or record handed out by one lookup must
+			// not change when the next lookup runs (SelectRowid's row can only be used after the call returned)
+			var keptRow sqlittle.Row
+			var keptRowCopy hx.Row
+			var keptRec sdb.Record
+			var keptRecCopy hx.Row
+			keptID := int64(0)
 			for _, id := range ids {
 				why := ps.ids[id]
 				want, has := byID[id]
@@ -148,6 +155,13 @@ func C04(run *hx.Run) {
 				case has && !hx.RowEqualDoc(want, hx.Row(row)):
 					run.Violation(key+"/values", fmt.Sprintf("SelectRowid(%s, %d) = %s, SQLite %s", t.Name, id, hx.RowString(row), hx.RowString(want)), detail)
 				}
+				if keptRow != nil && !hx.RowEqualStrict(hx.Row(keptRow), keptRowCopy) {
+					run.Violation("C04/SelectRowid/earlier-result-changed", fmt.Sprintf("the row SelectRowid(%s, %d) returned changed when SelectRowid(%d) ran: was %s, now %s", t.Name, keptID, id, hx.RowString(keptRowCopy), hx.RowString(hx.Row(keptRow))), detail)
+					keptRow = nil
+				}
+				if row != nil && !p && err == nil {
+					keptRow, keptRowCopy, keptID = row, hx.CloneRow(row), id
+				}
 				if has {
 					present++
 				} else {
@@ -166,6 +180,13 @@ func C04(run *hx.Run) {
 						run.Violation("C04/Table.Rowid/"+why+"/error", fmt.Sprintf("Table.Rowid(%d) error: %v", id, err), detail)
 					case has != (rec != nil):
 						run.Violation("C04/Table.Rowid/"+why+"/presence", fmt.Sprintf("Table(%s).Rowid(%d): record present=%v, SQLite present=%v", t.Name, id, rec != nil, has), detail)
+					}
+					if keptRec != nil && !hx.RowEqualStrict(hx.Row(keptRec), keptRecCopy) {
+						run.Violation("C04/Table.Rowid/earlier-result-changed", fmt.Sprintf("the record of an earlier Table(%s).Rowid call changed when Rowid(%d) ran: was %s, now %s", t.Name, id, hx.RowString(keptRecCopy), hx.RowString(hx.Row(keptRec))), detail)
+						keptRec = nil
+					}
+					if rec != nil && !p && err == nil {
+						keptRec, keptRecCopy = rec, recordToRow(rec)
 					}
 				}
 				// PKSelect on alias tables
@@ -240,6 +261,24 @@ func C04(run *hx.Run) {
 					}
 				}
 				run.See("probe_order", oname)
+			}
+			// keys that are no integer: a REAL with a fraction or beyond int64 equals no rowid
+			if t.RowidAlias != nil && len(ids) > 0 {
+				for _, id := range []int64{ids[0], ids[len(ids)/2], ids[len(ids)-1], 0, 1} {
+					for _, fk := range []float64{float64(id) + 0.5, float64(id) - 0.25, 1e19, -1e19, math.Inf(1), 9223372036854775808} {
+						if fk == math.Trunc(fk) && fk >= -9.2e18 && fk <= 9.2e18 {
+							continue
+						}
+						got, _, pm := collectPK(db, t.Name, sqlittle.Key{fk}, cols)
+						run.Eval(1)
+						if pm != "" {
+							run.Violation("C04/PKSelect/real-key/"+pmKind(pm), fmt.Sprintf("PKSelect(%s, %v): %s", t.Name, fk, firstLines(pm, 2)), nil)
+						} else if len(got) != 0 {
+							run.Violation("C04/PKSelect/real-key/phantom", fmt.Sprintf("PKSelect(%s, Key{%v}) returned %s; no rowid equals that REAL (an error or no row is right)", t.Name, fk, hx.RowString(got[0])), nil)
+						}
+					}
+				}
+				run.See("probe_order", "real-valued keys")
 			}
 			for k, n := range ps.kind {
 				run.Count("probes_"+k, n)
